@@ -666,6 +666,7 @@ fn cli_slot_grid(rep: &Report) {
 
 pub fn run(rep: &'static Report) {
     rep.set_rule("E-GRID per untrusted-input surface (all byte strings of length <= 2, every prefix of authentic files, every message length for noise_decrypt and the AEAD wrappers, every length/character-class of key strings, hostile values of every header field under heap accounting) and E-PROC: every argument vector of length <= 3 (quick) / <= 4 (thorough) over a 28-token vocabulary under two environments, as real processes. distinct non-trivial = distinct inputs per surface");
+    rep.rule_add("CLI argument vectors and the per-slot value grid run as real processes; library compiled with overflow checks.");
     rep.assume("the keyring parser surface is enumerated by C17; all C03 graph states also run under the panic guard");
     rep.assume("stdin is /dev/null and the process has no controlling terminal (setsid), so prompts cannot block; wall limit 30 s per process");
     kra::note(rep);
